@@ -73,7 +73,7 @@ func runMergeFaultCase(c *Case, env *Env) *Result {
 		Heartbeat()
 		var segs []segment.Segment
 		var ras []*SimReaderAt
-		counter := 0
+		plan := &GlobalFaultPlan{Fault: fault}
 		for _, in := range inputs {
 			seg, _, ra, lpi, lerr := LoadView(in.Bytes, StoreFile, sched)
 			if lpi != nil || lerr != nil {
@@ -88,15 +88,8 @@ func runMergeFaultCase(c *Case, env *Env) *Result {
 				ra.Budget = budget // a merge that keeps re-reading a failing input is cut off
 				ra.Mark()
 			}
-			ra.FaultFn = func(int) (bool, int) {
-				// the plan is expressed in terms of the global read index over all inputs
-				idx := counter
-				counter++
-				if fault != nil && idx >= fault.From && (fault.Count <= 0 || idx < fault.From+fault.Count) {
-					return true, fault.Kind
-				}
-				return false, 0
-			}
+			// the plan is expressed in terms of the global read index over all inputs
+			ra.FaultFn = plan.Decide
 		}
 		wr := NewSimWriter(sched)
 		_, _, pi, err = RunMerge(mc.Merge, mc.Mode, segs, drops, wr, nil)
@@ -104,8 +97,8 @@ func runMergeFaultCase(c *Case, env *Env) *Result {
 			fired += ra.FiredCount()
 		}
 		res.SubRuns++
-		res.Events += counter
-		return wr.Buf, err, pi, counter, fired
+		res.Events += plan.Reads()
+		return wr.Buf, err, pi, plan.Reads(), fired
 	}
 
 	B, err, pi, R, _ := exec(nil)
